@@ -1,7 +1,7 @@
 #!/bin/bash
 # Runs every seeded defect against the quick check of the property it breaks (and extra checks listed in
 # seeded/<id>/also.txt) and prints one line per seed. Usage: tools/seedmatrix.sh [seed ids...]
-cd /verif
+cd "$(dirname "$(readlink -f "$0")")/.."
 IDS="$@"; [ -z "$IDS" ] && IDS=$(ls seeded | grep -E '^C[0-9]+-[0-9]+$' | sort -V)
 for id in $IDS; do
   P=${id%-*}
